@@ -308,6 +308,60 @@ func runC18(c *rt.Ctx) {
 		}
 	}
 
+	// ---- histograms do not share anything: a busy one (more observations in a period than the ring
+	// holds) next to quiet ones registered right before and after it, for both parities of the busy
+	// one's buffer swap at the time the neighbours are registered
+	if c.Mine(2) {
+		for _, pollsBefore := range []int{0, 1, 2} {
+			mk := func(tag string) uint32 {
+				return metrics.AddHistogram(fmt.Sprintf("verifiso%d_%d_%s", c.Shard, pollsBefore, tag), false, nil)
+			}
+			hs := []uint32{mk("a")}
+			for i := 0; i < pollsBefore; i++ {
+				metrics.ObserveHist(hs[0], 5)
+				metrics.VerifExtractHist(hs[0])
+			}
+			hs = append(hs, mk("b"), mk("c"))
+			for busy := range hs {
+				quiet := map[int]uint64{}
+				for qi := range hs {
+					if qi != busy {
+						quiet[qi] = uint64(7 + 2*qi)
+						metrics.ObserveHist(hs[qi], quiet[qi])
+					}
+				}
+				n := 40000
+				obs := make([]uint64, n)
+				for i := range obs {
+					obs[i] = 1000000 + uint64((i*7919)%100003)
+					metrics.ObserveHist(hs[busy], obs[i])
+				}
+				for qi, v := range quiet {
+					s := metrics.VerifExtractHist(hs[qi])
+					st := map[string]uint64{}
+					for k, nm := range pctlNames {
+						st[nm] = s.Percentiles[k]
+					}
+					c.Eval(1)
+					if clause, detail := checkPeriod([]uint64{v}, false, s.Count, s.Kept, st, s.Kept > 0); clause != "" {
+						c.Violation("C18 "+clause+" neighbouring-histogram", fmt.Sprintf("a histogram with the single observation %d, registered next to one that took %d observations in the period (%d polls of the first before the others were registered): %s", v, n, pollsBefore, detail),
+							map[string]interface{}{"polls_before": pollsBefore, "busy": busy, "quiet": qi})
+					}
+				}
+				s := metrics.VerifExtractHist(hs[busy])
+				st := map[string]uint64{}
+				for k, nm := range pctlNames {
+					st[nm] = s.Percentiles[k]
+				}
+				if clause, detail := checkPeriod(obs, false, s.Count, s.Kept, st, true); clause != "" && s.Count == uint64(n) {
+					c.Violation("C18 "+clause+" neighbouring-histogram", fmt.Sprintf("the busy histogram (%d observations, quiet neighbours): %s", n, detail), map[string]interface{}{"polls_before": pollsBefore, "busy": busy})
+				}
+				c.Distinct(fmt.Sprintf("iso|%d|%d", pollsBefore, busy))
+				c.Nontrivial(fmt.Sprintf("iso|%d|%d", pollsBefore, busy))
+			}
+		}
+	}
+
 	// ---- counters: sequential sums, then a free-running concurrent pass (sampler) --------------
 	if c.Mine(1) {
 		ctr := metrics.AddCounter(fmt.Sprintf("verifctr%d", c.Shard), nil)
